@@ -239,6 +239,7 @@ def kopOf : Sexp → Option KOp
   | .atom "child" => some .child
   | .atom "parent" => some .parent
   | .atom "fromkey" => some .fromkey
+  | .atom "eq" => some .eq
   | _ => none
 
 def hexChars (cs : List Char) : String := "x" ++ hexOfBytes (enc cs)
@@ -261,8 +262,24 @@ def execTn : List Sexp → String
     | _, _, _, _ => "bad-op"
   | _ => "bad-op"
 
+/-- `lfor ((xMOD N)*) xNAME` — `dependencyLoader.LoaderFor(NAME)` over module loaders labelled N: the index built by
+    `newDependencyLoader` (a later module of a name replaces an earlier one, the empty name is not indexed) -/
+def execLfor : List Sexp → String
+  | [.list ms, x] =>
+    match (ms.mapM fun (m : Sexp) => match m with
+        | .list [mx, l] => do
+          let nm ← mx.str?; let l ← l.nat?
+          pure (nm, l)
+        | _ => none), x.str? with
+    | some mods, some nm => match indexOf mods nm with
+      | some l => s!"mod {l}"
+      | none => "nil"
+    | _, _ => "bad-op"
+  | _ => "bad-op"
+
 def exec : List Sexp → String
   | .atom "tn" :: rest => execTn rest
+  | .atom "lfor" :: rest => execLfor rest
   | [.atom "hist", .list (.atom "tree" :: nodes), .list (.atom "steps" :: steps)] =>
     match treeOf nodes with
     | none => "bad-op"
